@@ -647,7 +647,51 @@ def operator_messages(seed, n):
                     e['twin'] = 'z' + e['ref']
                 out.append({'ref': e['ref'] + ':c%d' % r['nsub'], 'hex': r['hex'], 'src': 'operator',
                             'opkind': e['opkind'] + '-compressed', 'twin': e['twin']})
+    # uncompressed MULTI-SUBSET variants: the subsets are the data contents of two or three data twins
+    # (same program, other replication factors / bitmap arrangements / values), so the layout differs from
+    # subset to subset; made by the library's interpreting encoder in a pristine child, no ground truth
+    groups = {}
+    for e in out:
+        if e.get('twin', '').startswith('d') and 'compressed' not in e['opkind']:
+            groups.setdefault(e['twin'], []).append(e)
+    jobs = []
+    for tw in sorted(groups):
+        g = groups[tw]
+        if len(g) >= 2:
+            pick = rng.sample(g, min(len(g), rng.choice([2, 2, 3])))
+            jobs.append((tw, g[0], [x['hex'] for x in pick]))
+    res = core.pmap('merge_variant', [{'hexes': hx} for _tw, _e, hx in jobs], limit=120)
+    for (tw, e0, hx), (st, r) in zip(jobs, res):
+        if st == 'ok' and r:
+            raw = bytes.fromhex(r['hex'])
+            if raw.find(b'BUFR', 1) < 0 and len(raw) <= MAX_MSG:
+                out.append({'ref': e0['ref'] + ':m%d' % len(hx), 'hex': r['hex'], 'src': 'operator',
+                            'opkind': e0['opkind'].replace('-data-twin', '') + '-multi-subset', 'twin': tw})
     return out
+
+
+def _merge_variant(arg):
+    from pybufrkit.decoder import Decoder
+    from pybufrkit.encoder import Encoder
+    from pybufrkit.renderer import FlatJsonRenderer
+    from sim.observe import quiet_std
+    quiet_std()
+    try:
+        datas = [FlatJsonRenderer().render(Decoder().process(bytes.fromhex(h), wire_template_data=False))
+                 for h in arg['hexes']]
+        data = datas[0]
+        data[-3][2] = len(datas)
+        data[-3][4] = False
+        data[-2][2] = [d[-2][2][0] for d in datas]
+        out = Encoder().process(data, wire_template_data=False)
+        raw = bytes(out.serialized_bytes)
+        Decoder().process(raw)
+        return {'hex': raw.hex()}
+    except Exception:
+        return None
+
+
+core.register('merge_variant', _merge_variant)
 
 
 def table_d_messages(seed, n):
